@@ -20,6 +20,7 @@ import (
 	"fmt"
 	"sort"
 	"strings"
+	"unicode"
 
 	"golang.org/x/exp/maps"
 	"seehuhn.de/go/sfnt"
@@ -338,7 +339,8 @@ func newExplainer(fontInfo *sfnt.Font) *explainer {
 		a, b := cmap.CodeRange()
 		for r := a; r <= b; r++ {
 			gid := cmap.Lookup(r)
-			if gid != 0 {
+			// only use runes which Parse can read back from a quoted string
+			if gid != 0 && (unicode.IsPrint(r) || r == '\n' || r == '\r' || r == '\t') {
 				mappings[gid] = fmt.Sprintf("%q", string([]rune{r}))
 			}
 		}
